@@ -162,3 +162,61 @@ def obligations(ctx, cfg):
     th = TopicActorHistory(ctx)
     th.id = 'C08.f-history-topic-actor'
     return _obligations_c08b(ctx, cfg) + [th]
+
+
+class PublishOnce(Obligation):
+    """structural, beyond the batch-size bound of the handler obligation: the Publish handler hands its batch to the topic at one call site that is
+    not inside a loop, so a request of any size reaches the topic as one PublishMessages request (which is what keeps its messages contiguous)"""
+    id = 'C08.g-publish-hands-over-once'
+    desc = ('control-flow graph of the Publish handler coroutine (MIR): Topic::publish_messages is called at exactly one site and that site lies on no cycle '
+            '(the poll loop of the await does not contain the call that creates the future): one Publish request of any size = one PublishMessages request')
+    bounds = {'request size': 'any (structural)', 'scope': 'the handler coroutine itself; helpers it calls are followed one level if they call publish_messages'}
+
+    def body(self, ip, p):
+        dump = ip.ctx.dump
+        fns = [f for n, f in dump.functions.items() if re.search(r'publisher::.*::publish::\{closure#0\}$', n)]
+        if len(fns) != 1:
+            raise Unsupported('Publish handler coroutine not found (%d candidates)' % len(fns))
+        fn = fns[0].parse() or fns[0]
+        succ = {}
+        sites = []
+        for bb, (stmts, term) in fn.blocks.items():
+            if bb in fn.cleanup or term is None:
+                continue
+            out = set()
+            for m in re.finditer(r'bb(\d+)', term.text or ''):
+                if 'unwind' not in (term.text or '')[max(0, m.start() - 8):m.start()]:
+                    out.add(int(m.group(1)))
+            succ[bb] = {b for b in out if b not in fn.cleanup}
+            if term.kind == 'call' and re.fullmatch(r'[\w:]*\bpublish_messages', str(term.callee).strip()):
+                sites.append(bb)
+
+        def on_cycle(b):
+            seen, todo = set(), list(succ.get(b, ()))
+            while todo:
+                x = todo.pop()
+                if x == b:
+                    return True
+                if x in seen:
+                    continue
+                seen.add(x)
+                todo.extend(succ.get(x, ()))
+            return False
+        if not sites:
+            raise Unsupported('the Publish handler does not call Topic::publish_messages itself (moved into a helper?): the structural claim cannot be stated')
+        return {'sites': sites, 'cyclic': [b for b in sites if on_cycle(b)], 'blocks': len(succ)}
+
+    def post(self, ip, p, res):
+        return [Claim('Topic::publish_messages is called at exactly one site of the handler', len(res['sites']) == 1),
+                Claim('that call site lies on no cycle of the handler\'s control flow (it is not in a loop)', not res['cyclic']),
+                Cover('handler found', res['blocks'] > 0)]
+
+    def model_info(self, p, m, res):
+        return {'call_sites': res['sites'], 'on_cycle': res['cyclic']} if res else {}
+
+
+_obligations_c08c = obligations
+
+
+def obligations(ctx, cfg):
+    return _obligations_c08c(ctx, cfg) + [PublishOnce()]
